@@ -1,2 +1,8 @@
-pub mod common;
 pub mod c01;
+pub mod c03;
+pub mod c05;
+pub mod c06;
+pub mod c07;
+pub mod c09;
+pub mod c10;
+pub mod common;
